@@ -1,11 +1,12 @@
 #!/venv/bin/python
-"""store_seeded.py <worktree> <PROP> <mutant dir name> <detected: yes|no|after-strengthening> [note]"""
+"""store_seeded.py <worktree> <PROP> <mutant dir name> <detected: yes|no|after-strengthening> [note] [stored-as]"""
 import json, shutil, sys
 from pathlib import Path
 wt, prop, m, detected = sys.argv[1:5]
 note = sys.argv[5] if len(sys.argv) > 5 else ""
 src = Path(wt) / "mutants" / m
-dst = Path("/verif/seeded") / f"{prop}-{m}"
+stored_as = sys.argv[6] if len(sys.argv) > 6 else m
+dst = Path("/verif/seeded") / f"{prop}-{stored_as}"
 dst.mkdir(parents=True, exist_ok=True)
 for f in ("patch.diff", "demo.py"):
     shutil.copy(src / f, dst / f)
@@ -16,7 +17,7 @@ meta = {
     "needs_to_manifest": (src / "notes.txt").read_text().strip(),
     "confirmed_by_me": conf[-1] if conf else "not confirmed",
     "how_confirmed": "tools/confirm_mutants.sh in the scratch worktree: demo.py passes on the clean tree (rc 0), fails with the patch (rc 1); full pinned suite run with the patch applied",
-    "check_run": f"tools/run_mutant.sh seeded/{prop}-{m}/patch.diff {prop}  (git -C /repo apply; ./check {prop} --tier quick; git -C /repo checkout -- .)",
+    "check_run": f"tools/run_mutant.sh seeded/{prop}-{stored_as}/patch.diff {prop}  (git -C /repo apply; ./check {prop} --tier quick; git -C /repo checkout -- .)",
     "detected_by_check": detected,
     "note": note,
 }
